@@ -370,6 +370,32 @@ def build() -> Check:
               "the suspension decided by a done-callback is raised while the resume timer is still running (inside `with TimerScheduler`) and without evaluating the "
               "verdict again: a branch resubmitted in between runs user code while the invocation answers PENDING", where=f"line {r.lineno}")
 
+    # R2 (h2_C07 #1) "parked on a timer or external event ... so the execution is always woken again": a branch parked WITHOUT a time (callback / invoke result
+    # awaited) is never looked at again in the invocation, a branch parked with a time only at that time - while the background thread merges every
+    # checkpoint response into the operation map. When the awaited result arrives in such a response (a sibling keeps the invocation alive), the verdict
+    # "all parked" is still taken from the branch statuses alone and the invocation answers PENDING for an event that has already been delivered to it.
+    # Necessary condition for noticing: the verdict (or something it calls) reads the operation map / asks the state about the parked branches.
+    sv7 = cex.methods.get("should_execution_suspend")
+    if sv7 is None:
+        raise AnalysisError("ConcurrentExecutor.should_execution_suspend not found")
+    seen7, todo7, reads_ops = set(), [sv7], False
+    while todo7:
+        f7 = todo7.pop()
+        if f7.fq in seen7:
+            continue
+        seen7.add(f7.fq)
+        for n7 in ast.walk(f7.node):
+            if isinstance(n7, ast.Attribute) and n7.attr in ("operations", "get_checkpoint_result", "_operations_lock"):
+                reads_ops = True
+            if isinstance(n7, ast.Call) and isinstance(n7.func, ast.Attribute) and isinstance(n7.func.value, ast.Name) and n7.func.value.id == "self" \
+                    and n7.func.attr in cex.methods:
+                todo7.append(cex.methods[n7.func.attr])
+    ck.analysed["suspend_verdict_functions"] = sorted(x.rsplit(".", 1)[-1] for x in seen7)
+    ck.ob("R2.suspend-verdict-sees-delivered-results", fn_construct(sv7), reads_ops,
+          "the verdict 'every branch is finished or parked' is computed from the BranchStatus values alone: a branch parked on a callback / invoke result whose "
+          "completion has meanwhile been merged into ExecutionState.operations (it arrived in a checkpoint response while a sibling was still running) stays parked, "
+          "the invocation answers PENDING although it holds the awaited result and nothing is registered with the backend any more")
+
     # R5 timer -----------------------------------------------------------------------------------------
     ts = prog.cls("concurrency.executor", "TimerScheduler")
     tl = ts.methods.get("_timer_loop")
